@@ -22,6 +22,9 @@ CLAIMED = {
  "C14": ("information-flow lint on SSA: every branch comparing a size value (len/cap/size parameter) with a constant >= 16 on parse/render paths must have equal sets of token/node/output-producing callees in its two exclusive regions; growth sites must copy",
          "Decides that template length can select capacities only, never which tokenizer/parser/renderer runs, and that buffer growth preserves content. That the one tokenizer treats a tag identically at every byte offset is value-level arithmetic and not decided.",
          "'Semantic' functions are classified by role (appends to []Token, returns Node/[]Token, writes to io.Writer, or calls such a function). " + COMMON_NOTE, "§2 C14"),
+ "C05": ("abstract interpretation on go/cfg (interval facts over (tokenIndex, len(tokens)) with EOF-sentinel, alias, callee-preservation/monotonicity summaries and call-site-meet entry facts); per-SSA-value dominance of kind/validity tests for every kind-sensitive reflect call plus type-provenance of reflect Set/SetMapIndex/Append; enumeration rules for data-dependent Must*, single-result type assertions (pool homogeneity, literal provenance, dominating assertion), interface{}-keyed maps, integer division, untrusted length prefixes, lock leaks",
+         "Decides for every source, context value and compiled-data byte string that the enumerated families of panic sites in twig's own code are guarded on every path. Termination (tokenizer loop progress, unbounded ranges, recursion depth), arithmetic overflow into slice bounds, byte-offset string slicing and panics in user callbacks are NOT decided.",
+         "Frozen exceptions (each keyed to one function + construct, reasons in the evidence): two diagnostics in parseInclude, the second pass of DetectFilterChain, the all-strings branches of max/min. The Go runtime's documentation of which reflect calls panic on which kinds is the specification used. " + COMMON_NOTE, "§2 C05"),
  "C06": ("must-pass-through dataflow on SSA (a sandbox guard querying the policy for the same name dominates every dynamic FilterFunc/FunctionFunc call and built-in arm) + must-assign dataflow for flag inheritance at every derived RenderContext + who-writes-the-flag check",
          "Sound structural argument for the confinement clause on every path of the current source: whenever the context flag is set, a policy query for exactly the invoked name precedes every filter/function invocation, the flag is inherited by every derived context and is never cleared. Liveness ('allowed constructs keep working') is not decided.",
          "Assumes filters/functions are invoked only through values of the named types FilterFunc/FunctionFunc (R06.5 checks none is converted to an interface on render paths); user SecurityPolicy implementations are assumed to answer truthfully. " + COMMON_NOTE, "§2 C06"),
